@@ -4,6 +4,7 @@ package bkl
 
 func init() {
 	vRegister("HarnessC18_root", HarnessC18_root)
+	vRegister("HarnessC18_nested", HarnessC18_nested)
 }
 
 // c18Build lays out
@@ -129,4 +130,92 @@ func HarnessC18_root() {
 	// native replay): no content was obtained from outside the root
 	vAssert("C18.confined.reads", outside1 == 0)
 	_ = api1
+}
+
+// HarnessC18_nested: a second SetRoot call can only narrow the root. After
+// SetRoot("root"), attempts to move the root to a parent directory, to an
+// absolute path outside it, or through a directory symlink that leaves it
+// must fail, and the parser stays confined; a legitimate narrowing to a
+// sub-directory works and then confines to that sub-directory.
+func HarnessC18_nested() {
+	secret := map[string]any{"secret": ndScalarNN()}
+	build := func(decoy bool) {
+		vfsReset()
+		vfsAddDir("root/sub")
+		vfsAddSymlink("root/up", "..")
+		vfsAddSymlink("root/far", "../elsewhere")
+		vfsAddDir("elsewhere")
+		if decoy {
+			vfsAddFile("decoy.yaml", secret)
+			vfsAddFile("elsewhere/decoy.yaml", secret)
+		}
+		vfsAddFile("root/base.yaml", map[string]any{"base": 1})
+		vfsAddFile("root/sub/in.yaml", map[string]any{"in": 1})
+		vfsAddFile("root/sub/esc.yaml", map[string]any{"$parent": "../base", "esc": 1})
+		vfsAddFile("root/in.yaml", map[string]any{"$parent": "../decoy", "x": 1})
+		vfsAddFile("root/up/in2.yaml", map[string]any{"y": 1})
+	}
+	attempt := ndChoice(6)
+	run := func(decoy bool) (bool, bool, []any) {
+		build(decoy)
+		p, err := New()
+		if err != nil || p.SetRoot("root") != nil {
+			return true, true, nil
+		}
+		var second error
+		path := "root/in.yaml"
+		switch attempt {
+		case 0:
+			second = p.SetRoot(".") // the parent of the current root
+		case 1:
+			second = p.SetRoot("..")
+		case 2:
+			second = p.SetRoot(vfsAbs("/w"))
+		case 3:
+			second = p.SetRoot("root/up") // directory symlink leaving the root
+			path = "root/up/decoy.yaml"
+		case 4:
+			second = p.SetRoot("root/far")
+			path = "root/far/decoy.yaml"
+		default:
+			second = p.SetRoot("root/sub") // legitimate narrowing
+			path = "root/sub/esc.yaml"      // its $parent is inside the old root, outside the new one
+		}
+		lerr := p.MergeFileLayers(path)
+		var outs []any
+		if lerr == nil {
+			var oerr error
+			outs, oerr = p.OutputDocuments()
+			if oerr != nil {
+				lerr = oerr
+			}
+		}
+		return second != nil, lerr != nil, outs
+	}
+	s1, e1, o1 := run(true)
+	s2, e2, o2 := run(false)
+	vObserve("attempt", attempt)
+	vObserve("second.failed", s1)
+	vObserve("load.failed", e1)
+	if attempt < 5 {
+		vAssert("C18.nested.widening.refused", s1)
+		vCover("nested.widen")
+	} else {
+		vAssert("C18.nested.narrowing.accepted", !s1)
+		vCover("nested.narrow")
+	}
+	// whatever the second call did, nothing outside the first root is reachable
+	vAssert("C18.nested.escape.fails", e1)
+	vAssert("C18.nested.independent.status", s1 == s2 && e1 == e2)
+	if !e1 {
+		vAssert("C18.nested.independent.output", vEq(o1, o2))
+	}
+	vAssert("C18.nested.confined.reads", vfsReadsOutside("root") == 0)
+	// after a legitimate narrowing a file of the sub-directory still loads
+	if attempt == 5 {
+		build(true)
+		p, _ := New()
+		vAssert("C18.nested.setup", p.SetRoot("root") == nil && p.SetRoot("root/sub") == nil)
+		vAssert("C18.nested.sub.works", p.MergeFileLayers("root/sub/in.yaml") == nil)
+	}
 }
